@@ -14,6 +14,9 @@ func TestExploreAdmin(t *testing.T) {
 	e := startEnv(cfg, 0)
 	fmt.Println("routes:", len(e.Routes), e.Source)
 	for _, rt := range e.Routes {
+		if e.Logkeep && !isLogRoute(rt) {
+			continue
+		}
 		for _, r := range e.variants(rt) {
 			for _, s := range r.Setup {
 				e.Do(s, adminCred())
